@@ -102,7 +102,7 @@ const GAMMA: u64 = 2;
 /// unit of (n + k); BETA_CALL leaves the same factor ~3.  One hidden copy per call is n * ELEM = 96 kB at n = 2000.
 const BETA_CALL: u64 = 3500;
 fn beta_for(family: &str) -> u64 {
-    if family.starts_with("uc_") {
+    if core_name(family).starts_with("uc_") {
         BETA_CALL
     } else {
         BETA
@@ -725,6 +725,64 @@ fn families() -> Vec<Family> {
             check: "[len(qx), sum(qx), len(qb), sum(qb)]", expect: |s| format!("[{},{},{},{}]", 2 * s.n, s.n, 2 * s.n, 2 * s.n),
             check_alias: la, expect_alias: orig_list,
             nelem: |s| 2 * s.n, k: |s| 2 * s.n, copied: flat, in_model: false },
+        // ------------------------------------------------------------------ `++=` on FULL flat buffers (vectors, bytes)
+        // n = 2^m exactly (vectors: as pp_*; bytes: 4x that, so that n bytes per statement are visible next to the
+        // ~1 kB of loop overhead); the buffer starts with len == capacity (built by 2^m appends, at exact size, or as a
+        // copy-on-write copy): growth must stay amortised (one doubling), never one exact-size realloc per statement
+        Family { name: "vpp_pow2", kind: Kind::Vector, setup: "qx := V(); for (i <- 0 til qn) qx append= i", work: "for (i <- 0 til qn) qx ++= V(i)",
+            check: ls, expect: |s| format!("[{},{}]", 2 * s.n, 2 * tri(s.n)), check_alias: la, expect_alias: |s| format!("[{},{}]", s.n, tri(s.n)),
+            nelem: n_of, k: n_of, copied: flat, in_model: false },
+        Family { name: "vpp_exact", kind: Kind::Vector, setup: "qx := vector([0] ** qn)", work: "for (i <- 0 til qn) qx ++= V(i)",
+            check: ls, expect: |s| format!("[{},{}]", 2 * s.n, tri(s.n)), check_alias: la, expect_alias: orig_list,
+            nelem: n_of, k: n_of, copied: flat, in_model: false },
+        Family { name: "vpp_cow", kind: Kind::Vector, setup: "qs := vector([0] ** qn); qz := qs; qx := qs; qx[0] = 1", work: "for (i <- 0 til qn) qx ++= V(i)",
+            check: ls, expect: |s| format!("[{},{}]", 2 * s.n, tri(s.n) + 1), check_alias: la, expect_alias: |s| format!("[{},1]", s.n),
+            nelem: n_of, k: n_of, copied: flat, in_model: false },
+        Family { name: "vpp_dict", kind: Kind::Vector, setup: "qx := {7: vector([0] ** qn)}", work: "for (i <- 0 til qn) qx[7] ++= V(i)",
+            check: "[len(qx[7]), sum(qx[7])]", expect: |s| format!("[{},{}]", 2 * s.n, tri(s.n)),
+            check_alias: "[len(qy[7]), sum(qy[7])]", expect_alias: orig_list,
+            nelem: n_of, k: n_of, copied: flat, in_model: false },
+        Family { name: "vpp_struct", kind: Kind::Vector, setup: "struct Foo(fa, fb); qx := Foo(vector([0] ** qn), 7)", work: "for (i <- 0 til qn) qx[fa] ++= V(i)",
+            check: st, expect: |s| format!("[{},{},7]", 2 * s.n, tri(s.n)), check_alias: sta, expect_alias: orig_struct,
+            nelem: n_of, k: n_of, copied: flat, in_model: false },
+        Family { name: "bpp_pow2", kind: Kind::Bytes, setup: "qx := B(); for (i <- 0 til qn) qx append= i % 256", work: "for (i <- 0 til qn) qx ++= B(i % 256)",
+            check: ls, expect: |s| format!("[{},{}]", 2 * s.n, 2 * (s.n / 256) * 32640), check_alias: la, expect_alias: |s| format!("[{},{}]", s.n, (s.n / 256) * 32640),
+            nelem: n_of, k: n_of, copied: flat, in_model: false },
+        Family { name: "bpp_exact", kind: Kind::Bytes, setup: "qx := bytes([0] ** qn)", work: "for (i <- 0 til qn) qx ++= B(i % 256)",
+            check: ls, expect: |s| format!("[{},{}]", 2 * s.n, (s.n / 256) * 32640), check_alias: la, expect_alias: orig_list,
+            nelem: n_of, k: n_of, copied: flat, in_model: false },
+        Family { name: "bpp_cow", kind: Kind::Bytes, setup: "qs := bytes([0] ** qn); qz := qs; qx := qs; qx[0] = 1", work: "for (i <- 0 til qn) qx ++= B(i % 256)",
+            check: ls, expect: |s| format!("[{},{}]", 2 * s.n, (s.n / 256) * 32640 + 1), check_alias: la, expect_alias: |s| format!("[{},1]", s.n),
+            nelem: n_of, k: n_of, copied: flat, in_model: false },
+        Family { name: "bpp_row", kind: Kind::Bytes, setup: "qx := [0, bytes([0] ** qn)]", work: "for (i <- 0 til qn) qx[1] ++= B(i % 256)",
+            check: "[len(qx[1]), sum(qx[1])]", expect: |s| format!("[{},{}]", 2 * s.n, (s.n / 256) * 32640),
+            check_alias: "[len(qy[1]), sum(qy[1])]", expect_alias: orig_list,
+            nelem: n_of, k: n_of, copied: flat, in_model: false },
+        Family { name: "bpp_struct", kind: Kind::Bytes, setup: "struct Foo(fa, fb); qx := Foo(bytes([0] ** qn), 7)", work: "for (i <- 0 til qn) qx[fa] ++= B(i % 256)",
+            check: st, expect: |s| format!("[{},{},7]", 2 * s.n, (s.n / 256) * 32640), check_alias: sta, expect_alias: orig_struct,
+            nelem: n_of, k: n_of, copied: flat, in_model: false },
+        // ------------------------------------------------------------------ struct fields reached by SYMBOL (`qx::fa`)
+        // (every struct-field family above also gets a `sym_` twin with `qx[fa]` replaced by `qx::fa` in the workload)
+        Family { name: "sym_opidx", kind: Kind::List, setup: STRUCT_SETUP, work: "for (i <- 0 til qn) qx::fa[i] += 1",
+            check: st, expect: |s| format!("[{},{},7]", s.n, s.n), check_alias: sta, expect_alias: orig_struct,
+            nelem: n_of, k: n_of, copied: flat, in_model: false },
+        Family { name: "sym_rows_set", kind: Kind::List, setup: "struct Foo(fa, fb); qx := Foo([], 7); for (i <- 0 til qr) qx[fa] append= ([0] ** qr)",
+            work: "for (i <- 0 til qr) for (j <- 0 til qr) qx::fa[i][j] = 1",
+            check: "[len(qx[fa]), sum(qx[fa] map sum), qx[fb]]", expect: |s| format!("[{},{},7]", s.r, s.r * s.r),
+            check_alias: "[len(qy[fa]), sum(qy[fa] map sum)]", expect_alias: |s| format!("[{},0]", s.r),
+            nelem: rr_plus_r, k: rr, copied: |s| (0, s.r * s.r + s.r), in_model: false },
+        Family { name: "sym_dict_insert", kind: Kind::Dict, setup: "struct Foo(fa, fb); qx := Foo({}, 7)", work: "for (i <- 0 til qn) qx::fa[i] = i",
+            check: "[len(qx[fa]), sum(values(qx[fa])), qx[fb]]", expect: |s| format!("[{},{},7]", s.n, tri(s.n)),
+            check_alias: "[len(qy[fa])]", expect_alias: |_| "[0]".into(),
+            nelem: n_of, k: n_of, copied: |_| (0, 0), in_model: false },
+        Family { name: "sym_in_list", kind: Kind::List, setup: "struct Foo(fa, fb); qx := [Foo([0] ** qn, 7)]", work: "for (i <- 0 til qn) qx[0]::fa[i] = i",
+            check: "[len(qx[0][fa]), sum(qx[0][fa])]", expect: |s| format!("[{},{}]", s.n, tri(s.n)),
+            check_alias: "[len(qy[0][fa]), sum(qy[0][fa])]", expect_alias: orig_list,
+            nelem: n_of, k: n_of, copied: flat, in_model: false },
+        Family { name: "sym_in_dict", kind: Kind::List, setup: "struct Foo(fa, fb); qx := {\"a\": Foo([0] ** qn, 7)}", work: "for (i <- 0 til qn) qx[\"a\"]::fa[i] += 1",
+            check: "[len(qx[\"a\"][fa]), sum(qx[\"a\"][fa])]", expect: |s| format!("[{},{}]", s.n, s.n),
+            check_alias: "[len(qy[\"a\"][fa]), sum(qy[\"a\"][fa])]", expect_alias: orig_list,
+            nelem: n_of, k: n_of, copied: flat, in_model: false },
     ]
 }
 
@@ -790,9 +848,32 @@ fn observation_families() -> Vec<(Family, &'static str)> {
     ]
 }
 
+/// the `::field` twin of a struct-field family: the workload reaches the field by symbol (`qx::fa`) instead of by
+/// the field accessor (`qx[fa]`); set_index has a separate arm for it
+fn sym_twin(f: &Family) -> Family {
+    let mut g = *f;
+    g.name = Box::leak(format!("sym_{}", f.name).into_boxed_str());
+    g.work = Box::leak(f.work.replace("qx[fa]", "qx::fa").into_boxed_str());
+    g
+}
+/// family name without the `sym_` / `@typed` decorations (sizing and bound classes go by it)
+fn core_name(name: &str) -> &str {
+    name.trim_start_matches("sym_").trim_end_matches("@typed")
+}
+
 /// declared type of `qx` in the `@typed` variant of a family
 fn declared_type(name: &str) -> &'static str {
     match name {
+        "sym_opidx" | "sym_rows_set" | "sym_dict_insert" => return "Foo",
+        "sym_in_list" => return "list",
+        "sym_in_dict" => return "dict",
+        _ => {}
+    }
+    let name = name.trim_start_matches("sym_");
+    match name {
+        "vpp_struct" | "bpp_struct" => return "Foo",
+        "bpp_row" => return "list",
+        "vpp_dict" => return "dict",
         "uc_note" | "uc_note_new" | "uc_dict_list" | "uc_addkey" | "uc_wd_push" | "and_dict_addkey" => return "dict",
         "and_int" => return "int",
         "wd_nested_list" => return "list",
@@ -806,8 +887,8 @@ fn declared_type(name: &str) -> &'static str {
     match p {
         "list" | "rows" | "wide" | "ld" | "uc" | "pp" | "nl" | "and" | "and3" | "every" => "list",
         "dict" | "dk" | "dld" | "defdict" | "dd" | "pd" | "mg" | "tq" | "wd" => "dict",
-        "vec" => "vector",
-        "bytes" => "bytes",
+        "vec" | "vpp" => "vector",
+        "bytes" | "bpp" => "bytes",
         "str" => "str",
         "struct" | "sd" => "Foo",
         _ => "list",
@@ -1205,7 +1286,9 @@ fn main() {
          ||, --, &&, discard, insert, |.., .= reverse; less common lvalue forms of op-assign: with-default target \
          (d[k] = default) f= v with the key present (append, ++, |., +, a user closure; nested in a list, under a dict key, \
          in a struct field) and absent, `and` targets (a and b) f= v on variables, rows, dict entries, three targets, \
-         unpacking target (a, b) map= f) x (variable declared with `:=`, declared with a type annotation `qx: list = ..` = `@typed`) x \
+         unpacking target (a, b) map= f; `++=` on full vector / bytes buffers (2^m appends, exact size, copy-on-write copy; \
+         top level, dict value, list row, struct field); a `::field` (symbol) twin of every struct-field family plus \
+         x::f[i] f= v, x::f[i][j] = v, new dict keys in x::f, struct inside a list / dict) x (variable declared with `:=`, declared with a type annotation `qx: list = ..` = `@typed`) x \
          (unaliased, once-aliased) x sizes n0={}, 2 n0, 4 n0 with k = n \
          statements, each in a fresh interpreter; bytes requested from the global allocator during evaluate() of the \
          workload only; a case is one (family, variant, size) measurement; plus the quadratic control (self-test)",
@@ -1215,6 +1298,8 @@ fn main() {
 
     let t_start = std::time::Instant::now();
     let mut fams = families();
+    let sym_fams: Vec<Family> = fams.iter().filter(|f| f.work.contains("qx[fa]")).map(sym_twin).collect();
+    fams.extend(sym_fams);
     let typed_fams: Vec<Family> = fams.iter().map(typed).collect();
     fams.extend(typed_fams);
     fams.push(control_family());
@@ -1239,9 +1324,13 @@ fn main() {
         for &aliased in variants {
             let base = if fi == control_idx {
                 n0_control
+            } else if core_name(f.name).starts_with("bpp_") {
+                4 * n0_pow2
+            } else if core_name(f.name).starts_with("vpp_") {
+                n0_pow2
             } else if f.name.starts_with("tq_") {
                 n0_control
-            } else if f.name.starts_with("pp_") {
+            } else if core_name(f.name).starts_with("pp_") {
                 n0_pow2
             } else {
                 n0
